@@ -280,10 +280,19 @@ func c08VarName(name string, mangle func(string) string, styled bool) string {
 	return name
 }
 
+const c08TmplPrefix = "mp-"
+
 func (d *c08Def) lambdaList(b *strings.Builder, mangle func(string) string, styled bool) {
+	// the parameters of a template macro get names of their own: slip evaluates the expansion in the
+	// macro's scope, where a parameter named like a variable of the caller would hide it (the
+	// parameter is bound to the argument form)
+	pre := ""
+	if styled && d.Tmpl {
+		pre = c08TmplPrefix
+	}
 	ps := make([]string, len(d.Params))
 	for i, p := range d.Params {
-		ps[i] = c08VarName(p, mangle, styled)
+		ps[i] = pre + c08VarName(p, mangle, styled)
 	}
 	b.WriteString(strings.Join(ps, " "))
 	sep := func() {
@@ -298,7 +307,7 @@ func (d *c08Def) lambdaList(b *strings.Builder, mangle func(string) string, styl
 		sep()
 		b.WriteString(word)
 		for _, o := range ds {
-			fmt.Fprintf(b, " (%s %d)", o.Name, o.Val)
+			fmt.Fprintf(b, " (%s%s %d)", pre, o.Name, o.Val)
 		}
 	}
 	defaults("&optional", d.Opt)
@@ -322,16 +331,23 @@ func (s c08Step) text(mangle func(string) string, styled bool) string {
 		var ll strings.Builder
 		s.Def.lambdaList(&ll, mangle, styled)
 		name := c08Spell(mangle(s.Def.Name), s.Def.Sp)
+		if styled && s.Def.Tmpl {
+			name = c08Spell(mangle(s.Def.Name), s.Def.Sp&^3) // defmacro takes no package prefix
+		}
 		body := func() {
 			if styled && s.Def.Tmpl {
 				// the parameters are bound by a let in the template: `(let ((n ,n) (a ,a)) body)
 				b.WriteString("`(let (")
-				for i, v := range s.Def.vars() {
+				ps := append([]string{}, s.Def.Params...)
+				for _, o := range s.Def.Opt {
+					ps = append(ps, o.Name)
+				}
+				for i, v := range ps {
 					if i > 0 {
 						b.WriteByte(' ')
 					}
 					vn := c08VarName(v, mangle, styled)
-					b.WriteString("(" + vn + " ," + vn + ")")
+					b.WriteString("(" + vn + " ," + c08TmplPrefix + vn + ")")
 				}
 				b.WriteString(") ")
 				s.Def.Body.render(&b, mangle, styled)
@@ -984,7 +1000,7 @@ func (g *c08Gen) fill(i int, d *c08Def, callsInBinds bool) {
 	}
 	d.Body = g.body(i, vars)
 	d.Tmpl, d.Via = false, c08ViaPlain
-	if !d.Macro && len(d.Aux) == 0 && len(d.Binds) == 0 && r.Chance(22) {
+	if !d.Macro && len(d.Aux) == 0 && len(d.Binds) == 0 && len(d.Key) == 0 && r.Chance(22) {
 		// the function is spelled as a macro with a backquote template (same meaning: see c08Def.Tmpl)
 		d.Tmpl = true
 	}
@@ -1090,12 +1106,23 @@ func (g *c08Gen) program() *c08Program {
 	// events
 	nev := []int{0, 0, 1, 1, 2, 3}[r.Intn(6)]
 	redefs := map[string]int{}
-	redefine := func(i int, tag string) {
+	redefine := func(i int, tag string) bool {
 		// a new definition of an existing function: same lambda list up to &aux, new &aux and body
 		old := g.funcs[i]
 		nd := &c08Def{Name: old.Name, Params: old.Params, Opt: old.Opt, Key: old.Key, Sp: g.spelling(!old.Macro), Macro: old.Macro}
 		g.fill(i, nd, true)
+		// a name stays what its first definition made it, a function or a template macro: a call site
+		// compiled while the name was a macro does not evaluate its arguments (callers of a macro are
+		// compiled again when it becomes a function: outside the property)
+		for q := 0; old.Tmpl && q < 40 && (len(nd.Aux) > 0 || len(nd.Binds) > 0); q++ {
+			g.fill(i, nd, true)
+		}
+		nd.Tmpl = old.Tmpl && len(nd.Aux) == 0 && len(nd.Binds) == 0
+		if old.Tmpl && !nd.Tmpl {
+			return false
+		}
 		p.Tail = append(p.Tail, c08Step{Kind: "def", Def: nd, Tag: tag})
+		return true
 	}
 	newCaller := func(q int, suffix string) {
 		// a caller defined now (compiled against the current cells), and evaluated
@@ -1826,7 +1853,7 @@ func c08MakeJob(id int, mode string, steps []c08Step, suffix string) *c08Job {
 				kind = "setq"
 			}
 		}
-		if kind == "def" && s.Def.Via != c08ViaPlain {
+		if s.Kind == "def" && s.Def.Via != c08ViaPlain {
 			// a defining form inside progn / when / an installer function is no top-level definition for
 			// Code.Compile: it is evaluated where it stands (a batch of its own, like fmakunbound)
 			kind = "setq"
@@ -2423,6 +2450,12 @@ func c08SweepCells() []c08Cell {
 			return d
 		}
 		re := func(d *c08Def) c08Step { return c08Step{Kind: "def", Def: d, Tag: "reinstall", Re: true} }
+		// a plain top-level definition of the same kind (function or template macro)
+		hp := func(q int64) *c08Def {
+			d := h(q)
+			d.Tmpl = via == c08Vias
+			return d
+		}
 		for _, p := range positions {
 			if p.name != "body" && p.name != "prim-arg" && p.name != "if-then" {
 				continue
@@ -2437,7 +2470,7 @@ func c08SweepCells() []c08Cell {
 					def(gM, ""), ev(callOf("gm")), re(hA), ag(0), ag(1), ag(2), re(hB), ag(0), ag(1), ag(2), re(hA), ag(0), ag(1), ag(2)}},
 				c08Cell{"reinstall/" + vname + "/forward/" + p.name, []c08Step{def(gB, ""), def(hA, ""), ev(callOf("gb")), def(hB, "redef"), ag(0), re(hA), ag(0), re(hB), ag(0)}},
 				c08Cell{"reinstall/" + vname + "/same-again/" + p.name, []c08Step{def(hA, ""), def(gB, ""), ev(callOf("gb")), re(hA), ag(0), re(hA), ag(0)}},
-				c08Cell{"reinstall/" + vname + "/plain-between/" + p.name, []c08Step{def(hA, ""), def(gB, ""), ev(callOf("gb")), def(h(5), "redef"), ag(0), re(hA), ag(0), def(h(6), "redef"), ag(0)}},
+				c08Cell{"reinstall/" + vname + "/plain-between/" + p.name, []c08Step{def(hA, ""), def(gB, ""), ev(callOf("gb")), def(hp(5), "redef"), ag(0), re(hA), ag(0), def(hp(6), "redef"), ag(0)}},
 				c08Cell{"reinstall/" + vname + "/undefine/" + p.name, []c08Step{def(hA, ""), def(gB, ""), ev(callOf("gb")), undef("h"), ag(0), re(hA), ag(0), def(hB, "redef"), ag(0), undef("h"), re(hA), ag(0)}},
 			)
 		}
